@@ -27,6 +27,9 @@ pub enum RTarget {
     GardeMap,
     /// validator-validated list of items
     ValidatorList,
+    /// struct whose k3 / k5 are bool and the rest i32: an anchored number aliased into a bool field gives
+    /// an error with two locations (use site and definition)
+    TwoLoc,
 }
 
 #[derive(Clone, Debug, Serialize, Deserialize)]
@@ -88,6 +91,29 @@ struct GardeMapDoc {
 struct ValidatorListDoc {
     #[validate(nested)]
     items: Vec<VItem>,
+}
+
+#[derive(Debug, Deserialize)]
+#[allow(dead_code)]
+struct TwoLoc {
+    #[serde(default)]
+    k1: i32,
+    #[serde(default)]
+    k2: i32,
+    #[serde(default)]
+    k3: bool,
+    #[serde(default)]
+    k4: i32,
+    #[serde(default)]
+    k5: bool,
+    #[serde(default)]
+    k6: i32,
+    #[serde(default)]
+    k7: i32,
+    #[serde(default)]
+    k8: i32,
+    #[serde(default)]
+    k9: i32,
 }
 
 #[derive(Debug, Deserialize)]
@@ -158,6 +184,7 @@ fn parse(c: &RenderCase) -> Option<Result<(), serde_saphyr::Error>> {
     }
     match c.target {
         RTarget::GardeMap | RTarget::ValidatorList => unreachable!(),
+        RTarget::TwoLoc => go!(TwoLoc),
         RTarget::MapVec => go!(BTreeMap<String, Vec<i32>>),
         RTarget::MapInt => go!(BTreeMap<String, i32>),
         RTarget::Strict => go!(Strict),
@@ -218,6 +245,21 @@ fn parse_blocks(text: &str) -> Vec<Block> {
                 && let Some(n) = last_num
             {
                 b.carets.push((n, right[..pos].chars().count()));
+            } else if right.trim_start().chars().next().map(|c| c.is_alphabetic()).unwrap_or(false) {
+                // a text line inside the gutter ("This value comes indirectly from the anchor at line L
+                // column C:") introduces the second window of a two-location error
+                let nums: Vec<u64> = right
+                    .split(|c: char| !c.is_ascii_digit())
+                    .filter(|x| !x.is_empty())
+                    .filter_map(|x| x.parse().ok())
+                    .collect();
+                let header = if nums.len() >= 2 { Some((nums[0], nums[1])) } else { None };
+                blocks.push(Block {
+                    header,
+                    lines: vec![],
+                    carets: vec![],
+                });
+                last_num = None;
             }
         }
     }
@@ -393,9 +435,20 @@ pub fn exec(c: &RenderCase, st: &mut Stats) -> Vec<Viol> {
         st.bump("snippet.rendered_blocks");
         let mut marked_any = false;
         for b in &blocks {
-            // 2. vertical window
+            // 2. vertical window: at most five lines, all within two lines of the marked one
             if b.lines.len() > 5 {
                 out.push(mk("window-too-tall", format!("{name}: {} source lines in one snippet", b.lines.len())));
+            }
+            if let Some((marked, _)) = b.carets.first() {
+                for (n, _) in &b.lines {
+                    if n.abs_diff(*marked) > 2 {
+                        out.push(mk(
+                            "context-beyond-two-lines",
+                            format!("{name}: line {n} is shown in the window of marked line {marked}"),
+                        ));
+                        break;
+                    }
+                }
             }
             for (n, shown) in &b.lines {
                 // 3. horizontal crop. The radius is documented in *character* columns: 2r+1 characters plus
@@ -578,9 +631,33 @@ fn gen_validation_doc(rng: &mut Rng, target: RTarget) -> String {
     s
 }
 
+fn gen_two_location_doc(rng: &mut Rng) -> String {
+    // definition on an i32 line, use on a bool line below it; 1..4 lines apart; more lines below
+    let (d, u) = *rng.pick(&[(1usize, 3usize), (2, 3), (1, 5), (2, 5), (4, 5)]);
+    let n = rng.range(u, 9);
+    let eol = if rng.chance(1, 5) { "\r\n" } else { "\n" };
+    let mut s = String::new();
+    for i in 1..=n {
+        let v = if i == d {
+            format!("&val {}", rng.pick(&["42", "\"4\\e[31m2\"", "0x2A", "'fortytwo'"]))
+        } else if i == u {
+            "*val".to_string()
+        } else if i == 3 || i == 5 {
+            "true".to_string()
+        } else {
+            rng.below(100).to_string()
+        };
+        s.push_str(&format!("k{i}: {v}{eol}"));
+    }
+    s
+}
+
 fn gen_doc(rng: &mut Rng, target: RTarget) -> String {
     if matches!(target, RTarget::GardeMap | RTarget::ValidatorList) {
         return gen_validation_doc(rng, target);
+    }
+    if target == RTarget::TwoLoc {
+        return gen_two_location_doc(rng);
     }
     let crlf = rng.chance(1, 5);
     let eol = if crlf { "\r\n" } else { "\n" };
@@ -652,7 +729,7 @@ fn gen_doc(rng: &mut Rng, target: RTarget) -> String {
                     s.push_str(&format!("{key}: {}{eol}", rng.pick(&["Alpha", "Beta"])));
                 }
             }
-            RTarget::GardeMap | RTarget::ValidatorList => unreachable!(),
+            RTarget::GardeMap | RTarget::ValidatorList | RTarget::TwoLoc => unreachable!(),
             RTarget::Json => {
                 if is_bad {
                     let v = match rng.below(6) {
@@ -713,6 +790,7 @@ pub fn gen_case(tier: Tier, seed: u64, idx: u64) -> Case {
         RTarget::MapInt,
         RTarget::GardeMap,
         RTarget::ValidatorList,
+        RTarget::TwoLoc,
     ]);
     let doc = gen_doc(&mut drng, target);
     let mut rng = Rng::for_case(seed, "C17", idx);
